@@ -74,6 +74,52 @@ def _filtered_function(tu, name, lang):
     return fns[0]
 
 
+def _cutoff_datatypes(res):
+    """The cutoff clamps only REAL (two-sided) and POSITIVE (upper side) outputs; AXIS and QUATERNION outputs (unit vectors,
+    for which the compiler lets cutoff mean something else, e.g. the search radius of geomnormal) are never clipped.  Decided
+    on the canonical view of the cutoff routine (found by role: reads m->sensor_cutoff, stores through its output pointer)."""
+    from .. import norm
+    u = engine.unit("src/engine/engine_sensor.c")
+    cands = []
+    for name, fn in u.funcs.items():
+        if (fn.get("file") or u.tu) != u.tu:
+            continue
+        outs = [p.get("n") for p in cir.params(fn) if (p.get("t") or "").replace(" ", "") == "mjtNum*"]
+        if outs and any(x.get("k") == "MemberExpr" and x.get("n") == "sensor_cutoff" for x in cir.walk(fn)) and \
+                not any(x.get("k") == "MemberExpr" and x.get("n") == "sensor_type" and False for x in cir.walk(fn)):
+            stores = [x for x in cir.walk(fn) if x.get("k") in ("BinaryOperator", "CompoundAssignOperator") and x.get("op") in ("=", "+=", "*=")
+                      and cir.base_var(cir.kids(x)[0]) in outs and cir.strip(cir.kids(x)[0]).get("k") in ("ArraySubscriptExpr", "UnaryOperator")]
+            # a clamp rewrites an element from its own value: every store's right-hand side reads the stored element
+            if stores and all(cir.text(cir.kids(x)[0]) in cir.text(cir.kids(x)[1]) or x.get("k") == "CompoundAssignOperator" for x in stores):
+                cands.append(name)
+    if len(cands) != 1:
+        raise AnalysisError(f"cutoff routine (reads m->sensor_cutoff, stores through its mjtNum* parameter) not identified: {cands}")
+    fn = norm.canon(u, cands[0], propagate=True)
+    body = cir.body(fn)
+    outs = [p.get("n") for p in cir.params(fn) if (p.get("t") or "").replace(" ", "") == "mjtNum*"]
+    dts = [n for n, _v in ctypeinfo.enum_values("mjtDataType")]
+    allowed = {"mjDATATYPE_REAL", "mjDATATYPE_POSITIVE"}
+    seen = set()
+    bad = None
+    for x in cir.walk(body):
+        if x.get("k") in ("BinaryOperator", "CompoundAssignOperator") and x.get("op") in ("=", "+=", "*=") and \
+                cir.base_var(cir.kids(x)[0]) in outs and cir.strip(cir.kids(x)[0]).get("k") in ("ArraySubscriptExpr", "UnaryOperator"):
+            live, constrained = norm.enum_cases(norm.guards(body, x), dts, lambda t: "datatype" in t)
+            if not constrained or not (live <= allowed):
+                bad = bad or (x, sorted(live - allowed) if constrained else ["<every data type>"])
+            seen |= live & allowed
+    key = f"{cands[0]}:datatypes"
+    if bad is not None:
+        res.bad("R-CUTOFF", key, "src/engine/engine_sensor.c", bad[0].get("line"),
+                f"{cands[0]} clamps sensor outputs of data type {bad[1]}: only REAL and POSITIVE outputs are subject to the cutoff; an axis or "
+                f"quaternion output clipped component-wise is no longer a unit vector (geomnormal uses cutoff as its search radius)")
+    elif seen != allowed:
+        res.bad("R-CUTOFF", key, "src/engine/engine_sensor.c", fn.get("line"),
+                f"{cands[0]} never clamps outputs of data type {sorted(allowed - seen)}")
+    else:
+        res.ok("R-CUTOFF", key, {"clamped": sorted(seen)})
+
+
 def run(res, tier):
     u = engine.unit(SENSOR)
     for a in ANCHORS + (CUTOFF,):
@@ -259,6 +305,7 @@ def run(res, tier):
     # ------------------------------------------------------------------------------------------- R-CUTOFF
     res.rule("R-CUTOFF", "cutoff follows every compute call for the same (index, slice) on all returning paths; user and plugin "
              "callbacks are followed by a cutoff sweep guarded only by implied conditions", floor=5)
+    _cutoff_datatypes(res)
     compute = {a: family[a] for a in ANCHORS}
     cut = {CUTOFF: family[CUTOFF]}
     cc = r_sensor.cutoff_after_compute(u, compute, cut)
